@@ -89,6 +89,7 @@ Definition arith (o : binop) (a b : val) : val :=
   | VNum x, VNum y =>
       match o with Add => VNum ((qadd O) x y) | Sub => VNum ((qsub O) x y) | Mul => VNum ((qmul O) x y)
                  | Div => if (qeqb O) y 0 then VErr "ZeroDivisionError" else VNum ((qdiv O) x y) end
+  | VList x, VList y => match o with Add => VList (x ++ y) | _ => VErr "TypeError" end   (* [a] + [b] *)
   | VErr m, _ => VErr m | _, VErr m => VErr m
   | _, _ => VErr "TypeError"
   end.
@@ -144,6 +145,7 @@ Definition arith_k (o : binop) (a b : val) (k : val -> R) : R :=
   | VNum x, VNum y =>
       match o with Add => k (VNum ((qadd O) x y)) | Sub => k (VNum ((qsub O) x y)) | Mul => k (VNum ((qmul O) x y))
                  | Div => if (qeqb O) y 0 then err "ZeroDivisionError" else k (VNum ((qdiv O) x y)) end
+  | VList x, VList y => match o with Add => k (VList (x ++ y)) | _ => err "TypeError" end
   | VErr m, _ => err m | _, VErr m => err m
   | _, _ => err "TypeError"
   end.
